@@ -7,13 +7,17 @@
 EXTENDS Naturals, Sequences, FiniteSets, TLC, Json
 VARIABLE profile
 Default == [group |-> "default", titleWords |-> 5, abstract |-> "text20", keywords |-> <<5>>, coverage |-> TRUE, rights |-> TRUE,
-            methods |-> TRUE, project |-> TRUE,
+            methods |-> TRUE, project |-> TRUE, source |-> "absent",
             table |-> [present |-> TRUE, desc |-> TRUE, size |-> TRUE, auth |-> TRUE, nrec |-> TRUE, delim |-> TRUE, attrMethods |-> "none"], other |-> "absent",
             party |-> [el |-> "creator", userId |-> "orcid", email |-> TRUE, given |-> TRUE]]
 Abstracts == {"absent", "text19", "text20", "text21", "para19", "para20", "split19", "split20", "markdown20", "section-para20", "para-inline-only+para20",
               "para-inline-only", "para-empty"}
-GroupA == {[Default EXCEPT !.group = "dataset", !.titleWords = t, !.abstract = a, !.keywords = k, !.coverage = c, !.rights = r, !.methods = m, !.project = p] :
-             t \in {1, 4, 5, 6}, a \in Abstracts, k \in {<<>>, <<4>>, <<5>>, <<2, 2>>, <<2, 3>>, <<0, 5>>}, c \in BOOLEAN, r \in BOOLEAN, m \in BOOLEAN, p \in BOOLEAN}
+(* source: a dataSource (an element with the content model of a dataset) nested in the methods of the dataset or of its
+   table - "rich" has everything a dataset is recommended to have, "bare" has nothing of it.  What a nested data source
+   has or lacks says nothing about the dataset around it. *)
+GroupA == {[Default EXCEPT !.group = "dataset", !.titleWords = t, !.abstract = a, !.keywords = k, !.coverage = c, !.rights = r, !.methods = m, !.project = p, !.source = s] :
+             t \in {1, 4, 5, 6}, a \in Abstracts, k \in {<<>>, <<4>>, <<5>>, <<2, 2>>, <<2, 3>>, <<0, 5>>}, c \in BOOLEAN, r \in BOOLEAN, m \in BOOLEAN, p \in BOOLEAN,
+             s \in {"absent", "rich", "bare"}}
 GroupB == {[Default EXCEPT !.group = "entities", !.table = [present |-> tp, desc |-> d, size |-> s, auth |-> a, nrec |-> n, delim |-> dl, attrMethods |-> am], !.other = o] :
              am \in {"none", "parties-complete", "parties-bare"},     \* attribute-level methods/methodStep/dataSource with responsible parties (deep below attributeList)
              tp \in BOOLEAN, d \in BOOLEAN, s \in BOOLEAN, a \in BOOLEAN, n \in BOOLEAN, dl \in BOOLEAN, o \in {"absent", "with-description", "without-description"}}
